@@ -29,6 +29,7 @@ static std::string jwords(uint64_t b) {
   return t;
 }
 
+static std::string hex64(uint64_t b) { char t[32]; snprintf(t, sizeof t, "%016llx", (unsigned long long)b); return t; }
 struct PR { std::string res, dg; uint64_t bits = 0; int code = 0; };
 template <typename Node>
 static PR describe(const Node& n, bool err, int code) {
@@ -94,7 +95,7 @@ int main(int argc, char** argv) {
       std::string ser = se == kErrorNone ? std::string(wb.ToString(), wb.Size()) : std::string("<error>");
       if (ser != o) vh::fail(i, "serialize-differs", "Serialize gives '" + ser + "', F64toa gives '" + o + "' for " + in);
       PR back = parse_root(o);
-      if (back.res != "double" || back.bits != b) vh::fail(i, "lib-roundtrip", "'" + o + "' printed for " + in + " parses back as " + back.res + " " + vh::hex(&back.bits, 8));
+      if (back.res != "double" || back.bits != b) vh::fail(i, "lib-roundtrip", "'" + o + "' printed for " + in + " parses back as " + back.res + " " + hex64(back.bits));
       fprintf(out, "{\"k\":\"ftoa\",\"w\":%s,\"out\":%s}\n", jwords(b).c_str(), jarr(o).c_str());
     } else {
       bool neg = in[0] == '-';
